@@ -13,7 +13,7 @@ Separate Extraction
   Bind.arena_id_index Bind.arena_id_create Bind.arena_id_is_suitable Bind.memid_is_suitable Bind.heap_memid_is_suitable
   Bind.manage_os_memory Bind.inuse_init_word Bind.inuse_init Bind.claimable_from Bind.arena_alloc Bind.arena_area Bind.arena_contains
   Bind.manage Bind.step Bind.run Bind.init_state Bind.bound_inv_b Bind.placed_inv_b Bind.tags_uniform_b Bind.exclusive_leak_b
-  Bind.find_seg Bind.find_heap Bind.cached_spans
+  Bind.find_seg Bind.find_heap Bind.cached_spans Bind.seg_slices Bind.tag_safe_b Bind.heap_by_tag Bind.cursor_yields
   Abandon.tid_of Abandon.stepx Abandon.step Abandon.run_schedule Abandon.run_trace Abandon.adoption_trace Abandon.run_solo
   Abandon.mk_state Abandon.inv_b Abandon.finished Abandon.quiescent Abandon.count_ok_b Abandon.no_dead_abandoned_b
   Abandon.collect_prog Abandon.marked Abandon.holds Abandon.NEVER Abandon.USE.
